@@ -531,6 +531,9 @@ func (gen *generator) irFuncHeader(new *ir.Func, old ast.FuncHeader) error {
 	ps := old.Params()
 	if oldParams := ps.Params(); len(oldParams) > 0 {
 		new.Params = make([]*ir.Param, len(oldParams))
+		// paramNames tracks the parameter names seen so far; a function
+		// declaration has no body in which a repeated name would be noticed.
+		paramNames := make(map[string]bool)
 		for i, oldParam := range oldParams {
 			// Type.
 			typ, err := gen.irType(oldParam.Typ())
@@ -542,6 +545,12 @@ func (gen *generator) irFuncHeader(new *ir.Func, old ast.FuncHeader) error {
 			if n, ok := oldParam.Name(); ok {
 				ident := localIdent(n)
 				param.LocalIdent = ident
+				if !ident.IsUnnamed() {
+					if paramNames[ident.LocalName] {
+						return errors.Errorf("local identifier %q already present; parameter defined twice in header of function %q", ident.Ident(), new.Ident())
+					}
+					paramNames[ident.LocalName] = true
+				}
 			}
 			// (optional) Parameter attributes.
 			if oldParamAttrs := oldParam.Attrs(); len(oldParamAttrs) > 0 {
